@@ -21,6 +21,7 @@ def run(chk):
     a64vec.run(chk, A)
     a64vec.run_db_q(chk)
     a64vec.run_signature_rows(chk, A)
+    a64vec.run_fp(chk, A)
     zmask_rule(chk)
     return chk.finish(
         level="other",
